@@ -134,7 +134,7 @@ def rule_guard(ctx, rep):
 
 
 def funcs_with_dry_param(ctx):
-    return [f for f in ctx.prog.functions.values() if "dry_run" in f.params()]
+    return [f for f in ctx.prog.live_functions() if "dry_run" in f.params()]
 
 
 def rule_thread(ctx, rep):
@@ -333,7 +333,7 @@ def rule_only_writes(ctx, rep):
         min_instances=12,
     )
     agree_cache: dict[str, tuple[bool, str]] = {}
-    for fn in ctx.prog.functions.values():
+    for fn in ctx.prog.live_functions():
         if fn.module.name == "codemodder.cli" or fn.absorbed:
             continue
         pm = None
